@@ -8,8 +8,13 @@ import IRModel.Identity
   blocks; reversal of a fixed-width block is a bijection).
 * `eq_own_timings` : a code equals its own normalised timing list at every tolerance 0..100 %.
 * `intOf_none_iff` : `__int__` raises (ValueError on `int('', 2)`) exactly when no identifying bits exist.
-String form (`__str__`, `hexadecimal`: even digit count, parses back) and "differs from every other
-key's timing list" are decided by correspondence + search (C14_partial).
+* `hex_even` (session 4) : `hexadecimal` is `0x` + a non-empty even number of digits, for every order and
+  field vector for which `__int__` does not raise.
+* `eqTimings_iff`, `eqTimings_length_ne`, `eqTimings_mismatch` (session 4) : `code == timing list` is exactly
+  "same length and every duration inside the window of its position"; one burst outside its window, or
+  another length, makes the list different from the code.
+String form (`__str__`), "hex parses back" and whether another key's timing list really has a burst
+outside the window are decided by correspondence + search (C14_partial).
 -/
 namespace IRModel.Props.C14
 open IRModel IRModel.Py IRModel.Match IRModel.Bits IRModel.Identity
@@ -97,5 +102,51 @@ theorem intOf_none_iff (o : Order) (fields : List (Nat × Nat)) :
     · rename_i he; simpa using he
     · simp at h
   · intro h; simp [h]
+
+/-- the hex form is `0x` followed by a non-empty, EVEN number of digits (session 4): `hexadecimal` zero-fills
+    the upper-case hex digits to `len + len % 2`; for every order and every field vector, whenever
+    `__int__` does not raise. -/
+theorem hex_even (o : Order) (fields : List (Nat × Nat)) (s : List Char) (h : hexOf o fields = some s) :
+    ∃ d, s = '0' :: 'x' :: d ∧ d.length % 2 = 0 ∧ d ≠ [] := by
+  unfold hexOf at h
+  cases hv : intOf o fields with
+  | none => simp [hv] at h
+  | some v =>
+    simp only [hv, Option.map_some, Option.some.injEq] at h
+    refine ⟨_, h.symm, ?_, ?_⟩
+    · simp only [zfill, List.length_append, List.length_replicate]; omega
+    · have hpos : 0 < (hexUpper v).length := by
+        unfold hexUpper
+        rw [List.length_map]
+        exact List.length_pos_iff.mpr (Nat.toDigits_ne_nil)
+      intro hnil
+      have := congrArg List.length hnil
+      simp only [zfill, List.length_append, List.length_replicate, List.length_nil] at this
+      omega
+
+/-- `code == timing_list` holds exactly when the lengths agree and every duration matches its normalised
+    counterpart: a list of another length, or with one burst outside the window of its position, is
+    different from the code (the "differs from the timing list of any other key" half of C14, given that
+    some duration of the other key lies outside the window - decided per protocol by the search). -/
+theorem eqTimings_iff (tol : Tol) (n o : List Int) :
+    eqTimings tol n o = true ↔ n.length = o.length ∧ ∀ p ∈ List.zip o n, isMatch tol p.1 p.2 = true := by
+  unfold eqTimings
+  simp [List.all_eq_true]
+
+theorem eqTimings_length_ne (tol : Tol) (n o : List Int) (h : n.length ≠ o.length) :
+    eqTimings tol n o = false := by
+  cases hb : eqTimings tol n o with
+  | false => rfl
+  | true => exact absurd ((eqTimings_iff tol n o).1 hb).1 h
+
+theorem eqTimings_mismatch (tol : Tol) (n o : List Int) (p : Int × Int) (hp : p ∈ List.zip o n)
+    (hm : isMatch tol p.1 p.2 = false) : eqTimings tol n o = false := by
+  cases hb : eqTimings tol n o with
+  | false => rfl
+  | true =>
+    have := ((eqTimings_iff tol n o).1 hb).2 p hp
+    rw [hm] at this; cases this
+
+example : hexOf .msb [(5, 4), (300, 12)] = some ['0', 'x', '5', '1', '2', 'C'] := by decide
 
 end IRModel.Props.C14
